@@ -10,6 +10,8 @@ type Timer struct {
 	mu        sync.RWMutex
 	runMu     sync.Mutex
 	isPending bool
+	// closed is set by StopSync: the timer can not be armed again.
+	closed bool
 }
 
 func newTimer(fn func()) *Timer {
@@ -33,6 +35,9 @@ func newTimer(fn func()) *Timer {
 func (t *Timer) Reset(d time.Duration) {
 	t.mu.Lock()
 	defer t.mu.Unlock()
+	if t.closed {
+		return
+	}
 	t.isPending = true
 	t.timer.Reset(d)
 }
@@ -44,7 +49,12 @@ func (t *Timer) Stop() {
 	t.timer.Stop()
 }
 
+// StopSync stops the timer for good and waits for a running callback.
+// A later Reset, by a call which was already in progress, does not arm it again.
 func (t *Timer) StopSync() {
+	t.mu.Lock()
+	t.closed = true
+	t.mu.Unlock()
 	t.Stop()
 	t.runMu.Lock()
 	t.Stop()
